@@ -116,6 +116,7 @@ class Model:
         self.dcode = Obj(self.dexm.cls("DCode"), "method.get_code().get_bc()")
         self.positive = {s: 2 for s in self.L if isinstance(s, Sym)}  # lower bounds of symbols (lengths are >= 2 bytes)
         self.symbols = {s for s in self.L if isinstance(s, Sym)}
+        self._cont = None
         self.lookups = []
         self.bad_targets = []
         self.payload = None
@@ -182,6 +183,22 @@ class Model:
         return NotImplemented
 
     def method_hook(self, it, recv, name, args, kwargs, e, func):
+        if isinstance(recv, str) and name in ("join", "format"):
+            parts = list(args[0]) if name == "join" and args and isinstance(args[0], (list, tuple)) else list(args)
+            if not all(isinstance(x, (str, int)) for x in parts):
+                # a text built from symbolic values (a block name, a log message): an opaque string, never a decision input
+                return Sym("strvalue", recv, *[x if isinstance(x, (str, int, Sym, Lin)) else show(x) for x in parts])
+        if isinstance(recv, (list, set, frozenset, tuple)) or (isinstance(recv, dict) and name not in ("items", "keys", "values", "get")):
+            # python containers: the generic container semantics of the xref model (append / pop / add / update ...)
+            from .xref_model import Runner
+            if self._cont is None:
+                self._cont = Runner(self.repo)
+            r = self._cont.container_method(recv, name, args, kwargs, e, func)
+            if r is not NotImplemented:
+                return r[0]
+            if not hasattr(recv, name):
+                raise Raised("AttributeError", e, "'%s' object has no attribute '%s'" % (type(recv).__name__, name))
+            raise AnalysisError("model: %s.%s is not modelled (%s)" % (type(recv).__name__, name, func.loc(e)))
         if isinstance(recv, dict):
             if name == "items" and not args:
                 return [(k, v) for k, v in recv.items()]
@@ -215,6 +232,8 @@ class Model:
                 return list(self.ins)
             if name == "get_instructions_idx" and recv is self.method:
                 return [(self.S[k], self.ins[k]) for k in range(3)]
+            if recv is self.method and name == "get_name":
+                return "m"
             if recv is self.method:
                 return Sym("method.%s" % name)
             return NotImplemented
@@ -334,6 +353,15 @@ class Model:
         return {"compare": self.compare, "method": self.method_hook, "call": self.call_hook, "binop": self.binop,
                 "global": self.global_hook, "subscript": self.subscript, "func": self.func_hook, "inline_funcs": inline}
 
+    def new_block(self, it, start, method):
+        """a DEXBasicBlock built by the real constructor (every attribute the class keeps exists), starting at `start`"""
+        cls = self.anam.cls("DEXBasicBlock")
+        o = Obj(cls, "block")
+        init = cls.lookup("__init__")
+        if init is not None:
+            it.call_function(init, [start, _Tok("vm"), method, _Tok("basic_blocks")], recv=o)
+        return o
+
     def new_dcode(self, it, name="dcode"):
         """a DCode object built by the real constructor (so that every attribute it keeps exists)"""
         cls = self.dexm.cls("DCode")
@@ -347,50 +375,16 @@ class Model:
         return _ModelInterp(self, self.repo, self.folder, asg=dict(asg), hooks=self.hooks(inline), unknown_cond="error")
 
 
-class _ModelInterp(Interp):
+from .xref_model import XInterp   # strict evaluation: nothing is lost silently (see XInterp)
+
+
+class _ModelInterp(XInterp):
     """a truth value that depends only on the model's own symbols (e.g. `if payload_idx % 4:`) can go either way for real
     inputs: both outcomes are explored.  Every other undecidable condition is an AnalysisError."""
 
     def __init__(self, model, *a, **kw):
         super().__init__(*a, **kw)
         self._model = model
-        self._xdepth = 0
-
-    def call_function(self, func, args, kwargs=None, recv=None):
-        # the shared interpreter returns an opaque value beyond 6 nested calls; here every call is executed
-        self._xdepth += 1
-        if self._xdepth > 80:
-            self._xdepth -= 1
-            raise AnalysisError("model run: more than 80 nested calls (at %s)" % func.qualname)
-        saved = self.depth
-        self.depth = 0
-        try:
-            return super().call_function(func, args, kwargs, recv)
-        finally:
-            self.depth = saved
-            self._xdepth -= 1
-
-    def _comp(self, e, env, func, kind):
-        """comprehensions with several `for` clauses over concrete sequences"""
-        if len(e.generators) <= 1 or isinstance(e, ast.DictComp):
-            return super()._comp(e, env, func, kind)
-        out = []
-
-        def rec(i, env2):
-            if i == len(e.generators):
-                out.append(self.eval(e.elt, env2, func))
-                return
-            g = e.generators[i]
-            seq = self.concrete_iter(self.eval(g.iter, env2, func))
-            if seq is None:
-                raise AnalysisError("%s: comprehension over a symbolic sequence (%s)" % (func.loc(e), ast.unparse(g.iter)[:60]))
-            for item in seq:
-                env3 = dict(env2)
-                self.assign(g.target, item, env3, func)
-                if all(self.truth(self.eval(c, env3, func), c, func) for c in g.ifs):
-                    rec(i + 1, env3)
-        rec(0, dict(env))
-        return out
 
     def unknown(self, v, node, func):
         if self._model.is_model_value(v):
@@ -457,7 +451,7 @@ def _offset_functions(sink, md):
     def runs(f, args, recv_factory):
         def run(asg):
             it = md.interp(asg, inline)
-            rf = recv_factory(it) if recv_factory is new_dcode else recv_factory()
+            rf = recv_factory(it) if (recv_factory is new_dcode or getattr(recv_factory, "needs_interp", False)) else recv_factory()
             return it.call_function(f, list(args), recv=rf)
         return explore(run)
 
@@ -558,10 +552,11 @@ def _offset_functions(sink, md):
     sink.analysed(f)
 
     def new_block(start, end):
-        def mk():
-            o = Obj(bb, "block")
-            o.attrs.update(start=start, end=end, method=md.method, _DEXBasicBlock__cached_instructions=None)
+        def mk(it):
+            o = md.new_block(it, start, md.method)
+            o.attrs.update(start=start, end=end, method=md.method)
             return o
+        mk.needs_interp = True
         return mk
 
     for (a, b, want, what) in ((S[1], S[2], [1], "block [len0, len0+len1)"), (0, S[2], [0, 1], "block [0, len0+len1)"), (S[1], S[3], [1, 2], "block [len0, end)")):
@@ -636,7 +631,7 @@ def rule_payload_model(sink, repo):
         def run(asg):
             md.lookups, md.bad_targets = [], []
             it = md.interp(asg, inline)
-            o = Obj(bb, "block")
+            o = md.new_block(it, Sym("block_start"), md.method)
             o.attrs.update(end=E, start=Sym("block_start"), nb_instructions=Sym("n"), last_length=0, special_ins={}, method=md.method)
             r = it.call_function(f, [ins], recv=o)
             return o, list(md.lookups), r
